@@ -397,6 +397,18 @@ pub fn run(tier: Tier) -> i32 {
         // a two-value shorthand is split whatever its values look like
         ("split/wh-two-references", "<circle id=\"a\" cxy=\"100 100\" rxy=\"15 20\"/><rect x=\"0\" y=\"0\" wh=\"#a~h #a~w\"/>".into(), "<circle id=\"a\" cxy=\"100 100\" rxy=\"15 20\"/><rect x=\"0\" y=\"0\" width=\"#a~h\" height=\"#a~w\"/>".into()),
         ("split/xy-two-references", "<ellipse id=\"a\" cxy=\"25 40\" rxy=\"15 20\"/><rect xy=\"#a~x2 #a~y2\" wh=\"3\"/>".into(), "<ellipse id=\"a\" cxy=\"25 40\" rxy=\"15 20\"/><rect x=\"#a~x2\" y=\"#a~y2\" wh=\"3\"/>".into()),
+        // fourth review round
+        ("circle-one-length/width+cy", "<circle width=\"10\" cy=\"5\"/>".into(), "<circle r=\"5\" cy=\"5\"/>".into()),
+        ("circle-one-length/rx+cy", "<circle rx=\"5\" cy=\"5\"/>".into(), "<circle r=\"5\" cy=\"5\"/>".into()),
+        ("circle-one-length/height+x2", "<circle height=\"10\" x2=\"10\"/>".into(), "<circle r=\"5\" x2=\"10\"/>".into()),
+        ("circle-one-length/width+y", "<circle width=\"10\" y=\"3\"/>".into(), "<circle r=\"5\" y=\"3\"/>".into()),
+        ("resize-by-alias/circle-wh-dh", "<circle cxy=\"5\" wh=\"10\" dh=\"2\"/>".into(), "<circle cxy=\"5\" r=\"5\" dh=\"2\"/>".into()),
+        ("resize-by-alias/circle-rxy-dwh", "<circle cxy=\"5\" rxy=\"5\" dwh=\"2\"/>".into(), "<circle cxy=\"5\" r=\"5\" dwh=\"2\"/>".into()),
+        ("resize-by-alias/ellipse-r-dw", "<ellipse cxy=\"5\" r=\"4\" dw=\"2\"/>".into(), "<ellipse cxy=\"5\" rxy=\"4\" dw=\"2\"/>".into()),
+        ("relative-radius-alias/circle-rxy", "<circle id=\"a\" cxy=\"50 50\" r=\"15\"/><circle cxy=\"#a\" rxy=\"#a~rx\"/>".into(), "<circle id=\"a\" cxy=\"50 50\" r=\"15\"/><circle cxy=\"#a\" r=\"#a~rx\"/>".into()),
+        ("relative-radius-alias/ellipse-r", "<circle id=\"a\" cxy=\"50 50\" r=\"15\"/><ellipse cxy=\"#a\" r=\"#a~rx\"/>".into(), "<circle id=\"a\" cxy=\"50 50\" r=\"15\"/><ellipse cxy=\"#a\" rxy=\"#a~rx\"/>".into()),
+        ("split/xy-two-references-comma", "<ellipse id=\"a\" cxy=\"25 40\" rxy=\"15 20\"/><rect xy=\"#a~x2 , #a~y2\" wh=\"3\"/>".into(), "<ellipse id=\"a\" cxy=\"25 40\" rxy=\"15 20\"/><rect x=\"#a~x2\" y=\"#a~y2\" wh=\"3\"/>".into()),
+        ("split/wh-two-references-comma", "<circle id=\"a\" cxy=\"100 100\" rxy=\"15 20\"/><rect x=\"0\" y=\"0\" wh=\"#a~h, #a~w\"/>".into(), "<circle id=\"a\" cxy=\"100 100\" rxy=\"15 20\"/><rect x=\"0\" y=\"0\" width=\"#a~h\" height=\"#a~w\"/>".into()),
         ("resize-rect-centre-length", "<rect cx=\"6\" width=\"10\" cy=\"5\" height=\"10\" dwh=\"2\"/>".into(), "<rect cx=\"6\" width=\"12\" cy=\"5\" height=\"12\"/>".into()),
     ];
     let st = run_space(eq_pairs.len(), |i| {
